@@ -1,6 +1,7 @@
 """C23 — Expression evaluation obeys Cypher laws: the `one overflow rule everywhere` clause (ops + casts)."""
 from ..facts import op_local
 from ..mirutil import narrowing_cast_guarded
+from ..core import AnchorLost
 
 EXPLANATION = (
     "Decides only the integer-overflow uniformity clause: in the numeric core of the evaluator (evaluator_numeric, evaluator_arithmetic, "
@@ -39,6 +40,9 @@ def run(ctx):
     F = ctx.facts
     ctx.rule("C23.1", "no raw overflow-capable i64 arithmetic in the evaluator's numeric core")
     ctx.rule("C23.2", "narrowing i128->i64 casts in the numeric core are range-checked")
+    ctx.rule("C23.4", "three-valued folds (list / map equality = AND of element equalities, IN = OR of them): an unknown (null) element result never ends the fold — only the absorbing value (false for AND, true for OR) may leave the loop early")
+    ctx.rule("C23.5", "AND / OR / XOR / NOT follow the Kleene truth tables on {true, false, null}: decided by walking the match's MIR decision tree once per abstract input")
+    ctx.rule("C23.6", "null propagates through arithmetic, comparison, equality and string predicates: each operator arm dispatches to a function whose match returns null whenever either operand is null (decided per operand variant)")
     ctx.rule("C23.3", "checked integer operations present (floor on the repository's checked_* idiom)")
     bodies = [b for i, b in sorted(F.bodies.items()) if in_core(i) and "::tests::" not in i]
     ctx.floor("C23.1", "numeric-core bodies", len(bodies), 80)
@@ -85,3 +89,187 @@ def run(ctx):
     ctx.floor("C23.3", "checked_* i64 calls", n_checked, 4)
     ctx.floor("C23.2", "widen-then-narrow sites", n_cast, 1)
     ctx.oblige(True, "C23.3", "floor", "")
+
+    # ---- clause 4: Kleene folds ----------------------------------------------------------------
+    # `[a, b] = [c, d]` is `a = c AND b = d` and `x IN [..]` is an OR of equalities.  In Kleene logic null is never absorbing:
+    # after a null element the fold must keep scanning, because a later false (AND) / true (OR) decides the result.  Structurally:
+    # inside the element loop, the arm taken when cypher_equals returns Value::Null cannot reach a return without going through
+    # the loop header again.
+    EQ = "nervusdb_query::evaluator::evaluator_equality::cypher_equals"
+    VAL = "nervusdb_query::executor::core_types::Value"
+    null_discr = [v["discr"] for v in ctx.adt(VAL)["variants"] if v["name"] == "Null"][0]
+    n4 = 0
+    for i, b in sorted(F.bodies.items()):
+        if not i.startswith("nervusdb_query::evaluator::") or "::tests::" in i:
+            continue
+        if b.local_ty(0) != VAL:
+            continue  # a two-valued predicate (`matches!(.., Bool(true))`) is not a three-valued fold
+        k = 0
+        for c in b.calls():
+            if c.name != EQ or c.target is None:
+                continue
+            # the loop header: an Iterator::next call block that dominates the call and is reachable from it
+            hdrs = [h.bb for h in b.calls() if h.name.endswith("::next") and b.dominates(h.bb, c.bb) and h.bb in b.reachable([c.bb])]
+            if not hdrs:
+                continue
+            hdr = hdrs[-1]
+            # the switch on the discriminant of the result
+            dl = c.dest[0]
+            sw = None
+            for bi in sorted(b.reachable([c.target], avoid=[hdr])):
+                t_ = b.blocks[bi]["t"]
+                if t_[0] != "switch":
+                    continue
+                sl = op_local(t_[1])
+                sd = b.single_def(sl) if sl is not None else None
+                if sd and sd[2] == "assign" and sd[3][2][0] == "discr" and sd[3][2][1][0] == dl and not sd[3][2][1][1]:
+                    sw = t_
+                    break
+            if sw is None:
+                continue
+            n4 += 1
+            tgt = None
+            for v, tb in sw[2]:
+                if v == null_discr:
+                    tgt = tb
+            explicit = tgt is not None
+            if tgt is None:
+                tgt = sw[3]
+            region = b.reachable([tgt], avoid=[hdr])
+            leaves = any(b.blocks[x]["t"][0] == "ret" for x in region)
+            ctx.instance("C23.4", "%s: fold over cypher_equals at %s — null arm %s, leaves the loop early: %s" % (i, c.loc(), "explicit" if explicit else "default", leaves))
+            ctx.oblige(not leaves, "C23.4", "%s:null-ends-fold#%d" % (b.root or i, k),
+                       "an unknown (null) element comparison ends the fold: `[null, 1] = [null, 2]` answers null although a later element decides it (false)", c.loc())
+            k += 1
+    ctx.floor("C23.4", "three-valued folds over cypher_equals", n4, 3)
+
+    # ---- clause 5: truth tables ------------------------------------------------------------------
+    from .. import truth
+    EV = ctx.body("nervusdb_query::evaluator::evaluate_expression_value")
+    vadt = ctx.adt(VAL)
+    dmap = {v["name"]: v["discr"] for v in vadt["variants"]}
+    discr_of = {"Bool": dmap["Bool"], "Null": dmap["Null"], "other": dmap["Int"]}
+    bop = {v["name"]: v["discr"] for v in ctx.adt("nervusdb_query::ast::BinaryOperator")["variants"]}
+    uop = {v["name"]: v["discr"] for v in ctx.adt("nervusdb_query::ast::UnaryOperator")["variants"]}
+
+    def k_and(a, b):
+        return "F" if "F" in (a, b) else ("T" if (a, b) == ("T", "T") else "N")
+
+    def k_or(a, b):
+        return "T" if "T" in (a, b) else ("F" if (a, b) == ("F", "F") else "N")
+
+    def k_xor(a, b):
+        return "N" if "N" in (a, b) else ("T" if a != b else "F")
+
+    NAMES = {"T": "true", "F": "false", "N": "null"}
+    n5 = 0
+    for opname, fn in (("And", k_and), ("Or", k_or), ("Xor", k_xor)):
+        start = truth.operator_arm(EV, "BinaryExpression", bop[opname])
+        tl = truth.tuple_local(EV, start) if start is not None else None
+        if start is None or tl is None:
+            raise AnchorLost("match over (left, right) for BinaryOperator::%s not found in evaluate_expression_value" % opname)
+        for a in "TFN":
+            for b_ in "TFN":
+                n5 += 1
+                try:
+                    got = truth.eval_match(EV, start, {(tl, 0): "l", (tl, 1): "r"}, {"l": a, "r": b_}, discr_of)
+                except truth.Undecided as e:
+                    got = ("undecided", str(e))
+                want = fn(a, b_)
+                ctx.instance("C23.5", "%s %s %s = %s" % (NAMES[a], opname.upper(), NAMES[b_], NAMES.get(got, got)))
+                ctx.oblige(got == want, "C23.5", "%s:%s,%s" % (opname, NAMES[a], NAMES[b_]),
+                           "%s %s %s evaluates to %s, Kleene logic requires %s" % (NAMES[a], opname.upper(), NAMES[b_], NAMES.get(got, got), NAMES[want]),
+                           "%s (match arm at bb%d)" % (EV.file, start))
+    start = truth.operator_arm(EV, "UnaryExpression", uop["Not"])
+    sl = truth.scrutinee_local(EV, start) if start is not None else None
+    if start is None or sl is None:
+        raise AnchorLost("match for UnaryOperator::Not not found in evaluate_expression_value")
+    for a, want in (("T", "F"), ("F", "T"), ("N", "N")):
+        n5 += 1
+        try:
+            got = truth.eval_match(EV, start, {(sl, None): "v"}, {"v": a}, discr_of)
+        except truth.Undecided as e:
+            got = ("undecided", str(e))
+        ctx.instance("C23.5", "NOT %s = %s" % (NAMES[a], NAMES.get(got, got)))
+        ctx.oblige(got == want, "C23.5", "Not:%s" % NAMES[a], "NOT %s evaluates to %s, Kleene logic requires %s" % (NAMES[a], NAMES.get(got, got), NAMES[want]), EV.file)
+    ctx.floor("C23.5", "truth-table rows decided", n5, 30)
+
+    # ---- clause 6: null propagation --------------------------------------------------------------
+    E = "nervusdb_query::evaluator::"
+    DISPATCH = {
+        "Equals": E + "evaluator_equality::cypher_equals", "NotEquals": E + "evaluator_equality::cypher_equals",
+        "LessThan": E + "evaluator_compare::compare_values", "LessEqual": E + "evaluator_compare::compare_values",
+        "GreaterThan": E + "evaluator_compare::compare_values", "GreaterEqual": E + "evaluator_compare::compare_values",
+        "Add": E + "evaluator_arithmetic::add_values", "Subtract": E + "evaluator_arithmetic::subtract_values",
+        "Multiply": E + "evaluator_arithmetic::multiply_values", "Divide": E + "evaluator_arithmetic::divide_values",
+        "Modulo": E + "evaluator_numeric::numeric_mod", "Power": E + "evaluator_numeric::numeric_pow",
+        "StartsWith": E + "evaluator_membership::string_predicate", "EndsWith": E + "evaluator_membership::string_predicate",
+        "Contains": E + "evaluator_membership::string_predicate",
+    }
+    full_discr = dict(dmap)
+    full_discr["other"] = dmap["Int"]
+    n6 = 0
+    propagating = {}
+
+    def null_propagates(fid):
+        if fid in propagating:
+            return propagating[fid]
+        fb = ctx.body(fid)
+        tl = truth.tuple_local(fb, 0)
+        bad = []
+        if tl is None:
+            bad.append("no match over (left, right) at the top of the function")
+        else:
+            for x in dmap:
+                xa = "T" if x == "Bool" else ("N" if x == "Null" else x)
+                for a, c_ in (("N", xa), (xa, "N")):
+                    try:
+                        got = truth.eval_match(fb, 0, {(tl, 0): "l", (tl, 1): "r"}, {"l": a, "r": c_}, full_discr)
+                    except truth.Undecided as e:
+                        got = ("undecided", str(e))
+                    if got != "N":
+                        bad.append("(%s, %s) -> %s" % (a, c_, got))
+        propagating[fid] = bad
+        return bad
+
+    for opname, fid in sorted(DISPATCH.items()):
+        start = truth.operator_arm(EV, "BinaryExpression", bop[opname])
+        # first call on the straight-line path of the arm
+        x, callee, dest, tgt = start, None, None, None
+        for _ in range(8):
+            if x is None:
+                break
+            t_ = EV.blocks[x]["t"]
+            if t_[0] == "call":
+                callee, dest, tgt = t_[1].get("r") or t_[1].get("d"), t_[3], t_[4]
+                break
+            x = t_[1] if t_[0] == "goto" else None
+        n6 += 1
+        ok_dispatch = callee == fid
+        ctx.instance("C23.6", "operator %s -> %s" % (opname, (callee or "?").split("::")[-1]))
+        ctx.oblige(ok_dispatch, "C23.6", "dispatch:%s" % opname,
+                   "BinaryOperator::%s no longer dispatches to %s (calls %s): its null behaviour is not the verified one" % (opname, fid.split("::")[-1], callee), EV.file)
+        if not ok_dispatch:
+            continue
+        bad = null_propagates(fid)
+        ctx.instance("C23.6", "%s: null in either operand -> null for all %d operand variants: %s" % (fid.split("::")[-1], len(dmap), "yes" if not bad else bad[:4]))
+        ctx.oblige(not bad, "C23.6", "null-propagation:%s" % fid.split("::")[-1],
+                   "%s does not return null for a null operand: %s" % (fid.split("::")[-1], "; ".join(bad[:4])), ctx.body(fid).file)
+        if opname == "NotEquals":
+            # result of cypher_equals is negated by a match: null stays null, true <-> false
+            for a, want in (("N", "N"), ("T", "F"), ("F", "T")):
+                try:
+                    got = truth.eval_match(EV, tgt, {(dest[0], None): "e"}, {"e": a}, discr_of)
+                except truth.Undecided as e:
+                    got = ("undecided", str(e))
+                ctx.instance("C23.6", "<> over an equality result %s = %s" % (NAMES[a], NAMES.get(got, got)))
+                ctx.oblige(got == want, "C23.6", "NotEquals:%s" % NAMES[a], "`<>` maps an equality result of %s to %s (expected %s)" % (NAMES[a], NAMES.get(got, got), NAMES[want]), EV.file)
+        elif dest[0] != 0:
+            ctx.oblige(False, "C23.6", "dispatch-result:%s" % opname, "the result of %s is post-processed before it is returned" % fid.split("::")[-1], EV.file)
+    # numeric_binop / numeric_div are what the arithmetic functions fall through to for non-temporal operands
+    for fid in (E + "evaluator_numeric::numeric_binop", E + "evaluator_numeric::numeric_div"):
+        bad = null_propagates(fid)
+        n6 += 1
+        ctx.instance("C23.6", "%s: null in either operand -> null: %s" % (fid.split("::")[-1], "yes" if not bad else bad[:4]))
+        ctx.oblige(not bad, "C23.6", "null-propagation:%s" % fid.split("::")[-1], "%s does not return null for a null operand: %s" % (fid.split("::")[-1], "; ".join(bad[:4])), ctx.body(fid).file)
+    ctx.floor("C23.6", "operator arms + helper functions checked", n6, 17)
